@@ -230,6 +230,11 @@ func parent(id, tier string) int {
 	seed := seedFromEnv()
 	work := filepath.Join(root(), "evidence", ".work", id)
 	runDir := filepath.Join(work, "run-"+tier)
+	if alt := os.Getenv("VERIF_REPO"); alt != "" {
+		// self-validation against a scratch copy: its own directory, so that such a run never touches the files of a
+		// registered run that happens at the same time
+		runDir = filepath.Join(work, fmt.Sprintf("run-%s-alt-%x", tier, fnvHash(alt)))
+	}
 	_ = os.RemoveAll(runDir)
 	if err := os.MkdirAll(runDir, 0o755); err != nil {
 		fmt.Fprintln(os.Stderr, err)
@@ -816,4 +821,12 @@ func anchorCoverage(id, covDir string) map[string]float64 {
 		}
 	}
 	return out
+}
+
+func fnvHash(s string) uint32 {
+	h := uint32(2166136261)
+	for i := 0; i < len(s); i++ {
+		h = (h ^ uint32(s[i])) * 16777619
+	}
+	return h
 }
